@@ -116,7 +116,11 @@ func printStmt(sb *strings.Builder, s Stmt, d int) {
 			printStmts(sb, x.Body, d+1)
 			fmt.Fprintf(sb, "%s} while ($%s < %d);\n", in, x.K.Name, x.N)
 		case KFor:
-			fmt.Fprintf(sb, "%sfor ($%s = 0; $%s < %d; $%s++) {\n", in, x.K.Name, x.K.Name, x.N, x.K.Name)
+			if x.Le {
+				fmt.Fprintf(sb, "%sfor ($%s = 0; $%s <= %d; $%s++) {\n", in, x.K.Name, x.K.Name, x.N-1, x.K.Name)
+			} else {
+				fmt.Fprintf(sb, "%sfor ($%s = 0; $%s < %d; $%s++) {\n", in, x.K.Name, x.K.Name, x.N, x.K.Name)
+			}
 			printStmts(sb, x.Body, d+1)
 			fmt.Fprintf(sb, "%s}\n", in)
 		case KForDown:
